@@ -246,10 +246,13 @@ class CompilerProcess:
 
     # ------------------------------------------------------------------- ops
     def outputs_in(self, d: str) -> dict:
+        """sha of every regular file directly in directory d, except schema sources
+        (no assumption about how generated files are named)."""
         out = {}
+        d = d.rstrip("/") or "/"
         for p, data in self.fs.h_listing(d).items():
-            base = p.rsplit("/", 1)[1]
-            if p.rsplit("/", 1)[0] == d.rstrip("/") and re.search(r"_bp\.(c|h|go|py)$", base):
+            parent, base = p.rsplit("/", 1)
+            if (parent or "/") == d and not base.endswith(".bitproto"):
                 out[base] = sha(data)
         return out
 
